@@ -273,6 +273,16 @@ Inv_C08_Equal ==
         /\ \A r \in want : Cardinality({ k \in DOMAIN got : got[k] = r }) = 1
         /\ \A k \in DOMAIN got : got[k] \in want
 
+(* without the exception: fails as soon as a placed fragment has no site location (negative control MC_Ownership_nosite_q):  *)
+(* the `continue` arm of the loop loses records, i.e. the code depends on every placed fragment reporting SOME location       *)
+(* (the fall-back "position the read is stored at" of NlaIIIFragment / CHICFragment.get_site_location)                         *)
+Inv_C08_EqualAll ==
+    pc = "done" =>
+        LET want == SerialRecsP(lib) \cup UnplacedRecs(nun)
+            got == FlattenSeq([k \in DOMAIN merged |-> SetToSeq(merged[k])]) IN
+        /\ \A r \in want : Cardinality({ k \in DOMAIN got : got[k] = r }) = 1
+        /\ \A k \in DOMAIN got : got[k] \in want
+
 TypeOK == /\ cur \in -1 .. NBins(til) /\ pend \subseteq Jobs /\ pc \in {"run", "done"}
 
 (* ---------------------------------------- scenario generator ---------------------------------- *)
